@@ -14,7 +14,7 @@ LEVEL = "exploration"
 WORKERS = {"quick": 8, "thorough": 16}
 BUDGET = {"quick": 150, "thorough": 480}
 MIN_NONTRIVIAL = {"quick": 100, "thorough": 600}
-REQUIRED_HOOKS = ["history", "evaluate", "reference(zygote)", "bindings-snapshot", "re-evaluation", "fresh-process-crosscheck", "generated-program-evaluation"]
+REQUIRED_HOOKS = ["history", "evaluate", "reference(zygote)", "bindings-snapshot", "re-evaluation", "fresh-process-crosscheck", "generated-program-evaluation", "evaluation-after-a-failure", "program-from-earlier-ast"]
 RULE = (
     "Seeded random histories (length 5-60) over {create Environment (runner I/C x declarations none / simple / dotted a.b / package p with p.x), compile, build "
     "program (with/without host functions), evaluate (bindings: empty / plain / dotted / nested maps / values that make the program fail), parse error, failing "
@@ -91,6 +91,7 @@ class History:
         self.envs = []   # (env, runner, declkind)
         self.progs = []  # (prog, env index, src, functions flag)
         self.gen_envs = {}  # program index -> activations drawn by the generator (generated programs only)
+        self.asts = []  # (compiled AST, env index, src, functions flag it was first built with)
         self.prev = "start"
         self.log = []
         self.c = None
@@ -122,7 +123,7 @@ class History:
         self.log.append(what)
         self.prev = what.split(":")[0] + ":" + (what.split(":")[1] if ":" in what else "")
 
-    def op_program(self, ei, src, host):
+    def op_program(self, ei, src, host, ast=None):
         c = self.celpy()
         env, runner, dk = self.envs[ei]
         funcs = None
@@ -131,7 +132,11 @@ class History:
 
             funcs = {"size": hostfuncs.size, "contains": hostfuncs.contains} if host == "override" else [hostfuncs.h1, hostfuncs.h2]
         try:
-            ast = env.compile(src)
+            if ast is None:
+                ast = env.compile(src)
+                self.asts.append((ast, ei, src, host))
+            else:
+                self.acc.hook("program-from-earlier-ast")
             prog = env.program(ast, functions=funcs)
         except c.CELParseError:
             self.note(f"parse-error:{runner}")
@@ -176,6 +181,7 @@ class History:
         if out2 != out:
             self.acc.violation(f"re-evaluation-differs runner={runner} decl={dk}", f"{src!r} evaluated twice with equal bindings {benv!r:.80}: {core.jkey(out)[:60]} then {core.jkey(out2)[:60]}", self.case(ei, src, benv, host))
         self.note(f"evaluate:{runner}:{'E' if out[0] != 'V' else 'V'}")
+        return out
 
     def raw_eval(self, prog, b):
         c = self.celpy()
@@ -266,10 +272,19 @@ def random_history(acc, zy, rnd, length):
             h.op_env(rnd.choice("IC"), rnd.choice(list(DECLS)))
         elif not h.progs or r < 0.35:
             ei = rnd.randrange(len(h.envs))
+            if h.asts and rnd.random() < 0.15:
+                # another program from an AST compiled earlier, bound to another set of functions (same environment)
+                ast, ei0, src0, host0 = rnd.choice(h.asts)
+                kinds0 = next((e[1] for e in SOURCES if e[0] == src0), [])
+                flip = False if host0 else ("override" if any("override" in e[1] for e in SOURCES if e[0] == src0) else ("host" in kinds0))
+                h.op_program(ei0, src0, flip, ast=ast)
+                continue
             if rnd.random() < GENERATED_SHARE:
                 gen = generated_program(rnd)
                 if gen is not None:
                     pi = h.op_program(ei, gen[0], False)
+                    if h.asts and h.asts[-1][2] == gen[0]:
+                        h.asts.pop()  # only the fixed sources (whose function variants are known) are rebuilt from their AST
                     if pi is not None:
                         h.gen_envs[pi] = gen[1]
                     continue
@@ -286,7 +301,12 @@ def random_history(acc, zy, rnd, length):
                 continue
             kinds = next(e[1] for e in SOURCES if e[0] == src)
             bk = rnd.choice([k for k in kinds if k not in ("host", "override")] + (["failing"] if rnd.random() < 0.15 else []))
-            h.op_evaluate(pi, dict(rnd.choice(BINDINGS[bk])))
+            benv = dict(rnd.choice(BINDINGS[bk]))
+            out = h.op_evaluate(pi, benv)
+            if out and out[0] != "V" and rnd.random() < 0.6:
+                # right after a failed evaluation: the same program with no bindings at all, or with one name fewer
+                h.acc.hook("evaluation-after-a-failure")
+                h.op_evaluate(pi, {} if rnd.random() < 0.6 or not benv else {k: v for k, v in list(benv.items())[1:]})
     return h
 
 
